@@ -632,7 +632,7 @@ class Gtxns(Instruction):
         return self._field
 
     def __str__(self) -> str:
-        return f"Gtxns {self._field}"
+        return f"gtxns {self._field}"
 
     @property
     def stack_pop_size(self) -> int:
@@ -673,7 +673,7 @@ class Gtxnsa(Instruction):
         return self._field
 
     def __str__(self) -> str:
-        return f"Gtxnsa {self._field}"
+        return f"gtxnsa {self._field}"
 
     @property
     def stack_pop_size(self) -> int:
